@@ -43,6 +43,10 @@ partial def feOf : SX → Option FE
     | .cond .. => pure (.delX e)
     | .val _ => pure (.delX e)
     | _ => none
+  | .node "wp" [.node k []] => some (.wproto k)
+  | .node "dac" [o, .node p [], .node t []] => do pure (.defAcc (← feOf o) p t)
+  | .node "ops" [o, .node p [], e] => do pure (.opSet (← feOf o) p (← feOf e))
+  | .node "inc" [o, .node p []] => do pure (.incr (← feOf o) p)
   | .node "pro" [a] => do pure (.protoOf (← feOf a))
   | .node "rgx" [] => some .regex
   | .node "cnd" [t, a, b] => do pure (.cond (← feOf t) (← feOf a) (← feOf b))
